@@ -1698,87 +1698,67 @@ func (ev *Eval) evalConj(e ast.Expr) []Conj {
 // scopeHas reports whether every free identifier of e resolves at ev.pos.
 func (ev *Eval) scopeHas(e ast.Expr) bool {
 	ok := true
-	ast.Inspect(e, func(n ast.Node) bool {
+	var walk func(n ast.Node, bound map[string]bool, inSel bool)
+	walk = func(n ast.Node, bound map[string]bool, inSel bool) {
 		switch x := n.(type) {
+		case nil:
+			return
 		case *ast.SelectorExpr:
-			ast.Inspect(x.X, func(m ast.Node) bool {
-				if id, isId := m.(*ast.Ident); isId {
-					if !ev.identKnown(id.Name) && ev.findImport(id.Name) == nil {
-						ok = false
-					}
-					// a local variable that shadows a type of the package (v := f();
-					// v.field) is not in scope here: the name resolves to the type
-					if !ev.isValueIdent(id.Name) && ev.pkg != nil {
-						if _, isType := ev.pkg.Scope().Lookup(id.Name).(*types.TypeName); isType {
-							ok = false
-						}
-					}
-				}
-				return true
-			})
-			return false
+			// only the operand is a name to resolve; x.Sel is a field or method
+			walk(x.X, bound, true)
 		case *ast.FuncLit:
 			// quantifier: its parameters are bound inside the body
-			bound := map[string]bool{}
+			nb := map[string]bool{}
+			for k := range bound {
+				nb[k] = true
+			}
 			for _, p := range x.Type.Params.List {
 				for _, n := range p.Names {
-					bound[n.Name] = true
+					nb[n.Name] = true
 				}
 			}
 			ast.Inspect(x.Body, func(m ast.Node) bool {
-				switch y := m.(type) {
-				case *ast.SelectorExpr:
-					ast.Inspect(y.X, func(mm ast.Node) bool {
-						if id, isId := mm.(*ast.Ident); isId && !bound[id.Name] && !ev.identKnown(id.Name) && ev.findImport(id.Name) == nil {
-							ok = false
-						}
-						return true
-					})
+				if ex, isEx := m.(ast.Expr); isEx {
+					walk(ex, nb, false)
 					return false
-				case *ast.FuncLit:
-					for _, p := range y.Type.Params.List {
-						for _, n := range p.Names {
-							bound[n.Name] = true
-						}
-					}
-				case *ast.CallExpr:
-					if id, isId := y.Fun.(*ast.Ident); isId {
-						_ = id
-						for _, a := range y.Args {
-							ast.Inspect(a, func(mm ast.Node) bool {
-								if fl, isFl := mm.(*ast.FuncLit); isFl {
-									for _, p := range fl.Type.Params.List {
-										for _, n := range p.Names {
-											bound[n.Name] = true
-										}
-									}
-								}
-								return true
-							})
-						}
-					}
-				case *ast.Ident:
-					if !bound[y.Name] && !ev.identKnown(y.Name) && !isContractBuiltin(y.Name) {
-						ok = false
-					}
 				}
 				return true
 			})
-			return false
 		case *ast.CallExpr:
+			if _, isId := x.Fun.(*ast.Ident); !isId {
+				walk(x.Fun, bound, false)
+			}
 			for _, a := range x.Args {
-				if !ev.scopeHas(a) {
+				walk(a, bound, false)
+			}
+		case *ast.Ident:
+			if bound[x.Name] {
+				return
+			}
+			if !ev.identKnown(x.Name) && !isContractBuiltin(x.Name) && ev.findImport(x.Name) == nil {
+				ok = false
+			}
+			// a local variable that shadows a type of the package (v := f();
+			// v.field) is not in scope here: the name resolves to the type
+			if inSel && !ev.isValueIdent(x.Name) && ev.pkg != nil {
+				if _, isType := ev.pkg.Scope().Lookup(x.Name).(*types.TypeName); isType {
 					ok = false
 				}
 			}
-			return false
-		case *ast.Ident:
-			if !ev.identKnown(x.Name) && !isContractBuiltin(x.Name) {
-				ok = false
-			}
+		case ast.Expr:
+			ast.Inspect(x, func(m ast.Node) bool {
+				if m == n {
+					return true
+				}
+				if ex, isEx := m.(ast.Expr); isEx {
+					walk(ex, bound, inSel)
+					return false
+				}
+				return true
+			})
 		}
-		return true
-	})
+	}
+	walk(e, map[string]bool{}, false)
 	return ok
 }
 
